@@ -136,6 +136,22 @@ theorem subtree_reach_nodup (dflt : ν) (lv : Nat → FpLevel) (d : Nat) (f : Tr
 
 example : WF 2 exTree := (fp_wfB_iff 2 exTree).1 (by decide)
 
+/-- non-vacuity of the reachability clauses on `exTree` (children 0 ↦ [1↦5, 3↦0], 2 ↦ [], 3 ↦ [0↦0]):
+    under an uncompressed top rank the absent coordinate 1 is reached as an empty fiber and
+    coordinate 4 (= shape) is not; under a compressed top rank the stored but empty children 2, 3
+    are not reached while child 0 is. -/
+example : FpReachable (0 : Int) (exLv .U .C) 1 exTree [1] 0 0 ∧
+          ¬ FpReachable (0 : Int) (exLv .U .C) 1 exTree [4] 0 0 ∧
+          FpReachable (0 : Int) (exLv .C .C) 1 exTree [0] 0 2 ∧
+          ¬ FpReachable (0 : Int) (exLv .C .C) 1 exTree [2] 0 0 ∧
+          ¬ FpReachable (0 : Int) (exLv .C .C) 1 exTree [3] 0 1 := by
+  refine ⟨?_, ?_, ?_, ?_, ?_⟩
+  · exact (subtree_reach_iff _ _ _ _ _ _ _).1 (by decide)
+  · exact fun h => absurd ((subtree_reach_iff _ _ _ _ _ _ _).2 h) (by decide)
+  · exact (subtree_reach_iff _ _ _ _ _ _ _).1 (by decide)
+  · exact fun h => absurd ((subtree_reach_iff _ _ _ _ _ _ _).2 h) (by decide)
+  · exact fun h => absurd ((subtree_reach_iff _ _ _ _ _ _ _).2 h) (by decide)
+
 example : fpGetSubTree (0 : Int) (exLv .C .C) 1 exTree [] = some 133 ∧
           fpGetSubTree (0 : Int) (exLv .U .U) 1 exTree [] = some 264 ∧
           fpGetSubTree (0 : Int) (exLv .U .C) 1 exTree [1] = some 10 ∧
